@@ -354,6 +354,12 @@ def run(ctx):
     from mstatic.rules import txqueue
     txqueue.transaction_shape(ctx, r9)
 
+    # ---- R10 what is invoked is what was stored -------------------------------------------
+    r10 = ctx.rule('R10', 'a job invokes the function, arguments and '
+                   'security context stored in its row, unconditionally',
+                   'AGREE/GD')
+    job_invocation(ctx, r10)
+
     # ---- R8 guarded-by -----------------------------------------------------------------------
     r8 = ctx.rule('R8', 'in-memory job structures are accessed only under '
                   'the scheduler condition lock', 'lock discipline')
@@ -447,3 +453,120 @@ def guarded_fields(ctx, rule):
     if n < 8:
         raise AnalysisError('C13.R8: only %d accesses to the in-memory job '
                             'structures found' % n)
+
+
+def job_invocation(ctx, rule):
+    """What is invoked is what was stored: the function named by the job
+    row (through its factory when one is named), with the row's arguments
+    (deserialised with the row's serializers) under the row's security
+    context; the call itself is unconditional, its failure is contained and
+    the context removed afterwards."""
+    prog = ctx.prog
+    pj = prog.func(DS + '._prepare_job')
+    J = pj.params[0]
+    rets = [x for x in own_nodes(pj.node) if isinstance(x, ast.Return)]
+    ok = len(rets) == 1 and isinstance(rets[0].value, ast.Tuple) and \
+        len(rets[0].value.elts) == 3
+    if not ok:
+        raise AnalysisError('_prepare_job: return shape')
+    a_, f_, g_ = [norm(e) for e in rets[0].value.elts]
+    defs = {}
+    for x in own_nodes(pj.node):
+        if isinstance(x, ast.Assign) and isinstance(x.targets[0], ast.Name):
+            defs.setdefault(x.targets[0].id, []).append(x)
+    cfg = ctx.cfg(pj)
+    okf = f_ in defs and len(defs[f_]) == 2
+    if okf:
+        for x in defs[f_]:
+            n = cfg.stmt_node(x)
+            facts = [(norm(a), t) for a, t in U.guard_atoms(cfg, n)]
+            if U.phas(x.value, 'getattr(__f(), %s.func_name)' % J):
+                fac = U.canon_expr(pj.node, x.value)
+                okf = okf and facts == [
+                    ('%s.target_factory_func_name' % J, True)] and \
+                    U.phas(fac, 'importutils.import_class(%s.'
+                           'target_factory_func_name)' % J)
+            elif U.phas(x.value, 'importutils.import_class(%s.func_name)'
+                        % J):
+                okf = okf and facts == [
+                    ('%s.target_factory_func_name' % J, False)]
+            else:
+                okf = False
+    rule.check(okf, ctx.construct(pj, extra='function named by the row'),
+               'the function invoked is not the one named by the job row '
+               '(import of func_name, or that attribute of the row\'s '
+               'factory when one is named)', ctx.loc(pj))
+    oka = a_ in defs and len(defs[a_]) == 1 and U.phas(
+        defs[a_][0].value, 'copy.deepcopy(%s.auth_ctx)' % J) and \
+        g_ in defs and any(U.phas(x.value, 'copy.deepcopy(%s.func_args)' % J)
+                           for x in defs[g_])
+    rule.check(oka, ctx.construct(pj, extra='the row\'s context and '
+                                  'arguments'),
+               'the security context / arguments handed to the invocation '
+               'are not (copies of) the ones stored with the job',
+               ctx.loc(pj))
+    des = [c for c in own_nodes(pj.node) if isinstance(c, ast.Call) and
+           U.call_name(c) == 'deserialize']
+    stores = [x for x in own_nodes(pj.node) if isinstance(x, ast.Assign) and
+              isinstance(x.targets[0], ast.Subscript) and
+              norm(x.targets[0].value) == g_]
+    okd = len(des) == 1 and len(stores) == 1 and \
+        norm(des[0].args[0]) == norm(stores[0].targets[0]) and \
+        U.phas(U.canon_expr(pj.node, stores[0].value),
+               '___.deserialize(%s)' % norm(stores[0].targets[0]))
+    rule.check(okd, ctx.construct(pj, extra='serialized arguments '
+                                  'deserialised in place'),
+               'an argument stored in serialised form is not replaced by '
+               'its deserialised value under the same name', ctx.loc(pj))
+    ij = prog.func(DS + '._invoke_job')
+    icfg = ctx.cfg(ij)
+    P = ij.params
+    calls = [(n, c) for n, c in icfg.calls(
+        lambda c: isinstance(c.func, ast.Name) and c.func.id == P[1])]
+    des = U.calls_in(icfg, 'deserialize_context')
+    clr = [(n, c) for n, c in U.calls_in(icfg, 'set_ctx')
+           if c.args and isinstance(c.args[0], ast.Constant) and
+           c.args[0].value is None]
+    oki = len(calls) == 1 and len(des) == 1 and bool(clr)
+    if oki:
+        n, c = calls[0]
+        kw = [k for k in c.keywords if k.arg is None]
+        oki = not U.guard_atoms(icfg, n) and len(kw) == 1 and \
+            norm(kw[0].value) == P[2] and not c.args and \
+            icfg.dominates(des[0][0], n) and \
+            [norm(a) for a in des[0][1].args] == [P[0]]
+        trys = [t for t in own_nodes(ij.node) if isinstance(t, ast.Try) and
+                any(x is c for b in t.body for x in ast.walk(b))]
+        oki = oki and len(trys) == 1 and any(
+            U.handler_types(h)[0].split('.')[-1] in ('Exception',
+                                                     'BaseException')
+            and not any(isinstance(x, ast.Raise) for s_ in h.body
+                        for x in ast.walk(s_))
+            for h in trys[0].handlers) and all(
+            any(x is cc for s_ in trys[0].finalbody for x in ast.walk(s_))
+            for _n, cc in clr)
+    rule.check(oki, ctx.construct(ij, extra='call with the stored '
+                                  'arguments, contained, context removed'),
+               '_invoke_job does not call the function with **args under '
+               'the deserialised context unconditionally, contain its '
+               'failure and remove the context in a finally', ctx.loc(ij))
+    # both processing paths hand _prepare_job's triple to _invoke_job
+    n_p = 0
+    for name in ('_process_memory_job', '_process_store_jobs'):
+        g = prog.func(DS + '.' + name)
+        gcfg = ctx.cfg(g)
+        pr = [c for _n, c in U.calls_in(gcfg, '_prepare_job')]
+        iv = [c for _n, c in U.calls_in(gcfg, '_invoke_job')]
+        if not pr or not iv:
+            raise AnalysisError('%s: prepare / invoke not found' % name)
+        for c in iv:
+            n_p += 1
+            tgt = [x.targets[0] for x in own_nodes(g.node)
+                   if isinstance(x, ast.Assign) and x.value in pr]
+            okp = bool(tgt) and isinstance(tgt[0], ast.Tuple) and \
+                [norm(e) for e in tgt[0].elts] == [norm(a) for a in c.args]
+            rule.check(okp, ctx.construct(g, c, extra='prepared triple'),
+                       'the invocation does not receive (context, function, '
+                       'arguments) as prepared from the job row, in that '
+                       'order', ctx.loc(g, c))
+    return 4 + n_p
